@@ -173,6 +173,37 @@ def wait(deliver, prior=0):
         sx.reach("wait-timeout")
 
 
+def wait_threads(prior):
+    """reception from a second thread while the reader enters / sits in wait_for_reception(): every
+    schedule at lock granularity.  A reader that was woken by the frame must get its timestamp; a reader
+    that timed out gets None."""
+    rig = Rig()
+    cm = rig.consumer.tpdo[1]
+    _configure(cm, "aligned", 0x184)
+    if prior:
+        rig.nb.notify(0x184, sx.fresh_bytes("d0", 8), sx.fresh_int("tsp", 1, 1 << 40))
+    ts = sx.fresh_int("ts0", 1, 1 << 40)
+    data = sx.fresh_bytes("d", 8)
+    sched = sx.scheduler()
+    calls = []
+    cm.add_callback(lambda mp: calls.append(mp))
+    sched.spawn(lambda: rig.nb.notify(0x184, data, ts), "receiver")
+    r = cm.wait_for_reception(timeout=1)
+    sched.join()
+    woken = sched.main.wait_results[-1] if sched.main.wait_results else False
+    sx.observe("r", [r, woken])
+    if woken:
+        sx.prove(r is not None and (r == ts) is not False, "a reader woken by the frame did not get it", "C15/threads/missed")
+        if r is not None:
+            sx.prove(r == ts, "woken reader gets the frame's timestamp", "C15/threads/timestamp")
+        sx.reach("threads-woken")
+    else:
+        sx.prove(r is None, "a reader that timed out reported a reception", "C15/threads/spurious")
+        sx.reach("threads-timeout")
+    sx.prove(sx.eq_bytes(sx.mkbytes(sx.items(cm.data)), data) and len(calls) == 1, "frame received exactly once",
+             "C15/threads/received")
+
+
 def remote_request():
     rig = Rig()
     cm = rig.consumer.tpdo[1]
@@ -250,6 +281,8 @@ def jobs(tier):
         for prior in (0, 1):
             out.append(dict(func="wait", params=dict(deliver=d, prior=prior)))
     out.append(dict(func="remote_request", params={}))
+    for prior in (0, 1):
+        out.append(dict(func="wait_threads", params=dict(prior=prior)))
     for k in (1, 2):
         out.append(dict(func="sequence", params=dict(k=k), weight=10 ** k))
     if tier == "thorough":
@@ -276,7 +309,7 @@ META = dict(
                     "for PDO maps in this harness (frame format is C10's business)"],
     assumptions=["producer and consumer are configured with the same mapping by the harness"],
     stubs=["struct", "threading.Condition", "Network.send_message replaced by a loopback", "logging"],
-    required_reach=["roundtrip", "collide-hit", "collide-miss", "collide-both", "wait-hit", "wait-timeout", "rtr-sent",
+    required_reach=["roundtrip", "collide-hit", "collide-miss", "collide-both", "wait-hit", "wait-timeout", "threads-woken", "threads-timeout", "rtr-sent",
                     "rtr-suppressed", "seq-transmit", "seq-foreign", "seq-reconfigure", "sequence"],
     limits=dict(quick=dict(max_decisions=20000), thorough=dict(max_decisions=50000)),
     validate_every=dict(quick=5, thorough=31),
